@@ -5,7 +5,9 @@
    its blocks are released agree (C01_geometry_realsize).  'allocated = reachable + reserved at every quiescent point'
    and 'create then delete restores the free count' are judged per explored history by the extracted decoder. *)
 From Coq Require Import ZArith List Bool.
-From ADF Require Import CPrelude Generated.Layout Generated.Leaf Model.Bitmap Proofs.BitmapP Proofs.GeometryP.
+From ADF Require Import CPrelude Generated.Layout Generated.Leaf Model.Bitmap Proofs.BitmapP Proofs.GeometryP Model.FileMap Proofs.FileMapP.
+From Coq Require Import Permutation.
+Import ListNotations.
 Local Open Scope Z_scope.
 
 Theorem C05_count : forall b last, count_free b last = Z.of_nat (nfree b (zseq 2 (Z.to_nat (last - 1)))).
@@ -28,6 +30,16 @@ Qed.
 Example C05_witness : count_free (set_used (set_used (fun _ _ => 4294967295) 880) 881) 1759 = 1756.
 Proof. vm_compute. reflexivity. Qed.
 
+(* shrinking a file (Model/FileMap.v, tied by checks/filemapcorr.py): what is kept plus what is given back is exactly what the
+   file had - data blocks beyond the new length and the extension blocks no longer needed - and nothing kept is given back *)
+Theorem C05_truncate_conserves : forall s n, Inv s -> (n <= length (f_data s))%nat ->
+  let '(s', freed) := f_trunc s n in
+  Inv s' /\ f_data s' = firstn n (f_data s) /\
+  Permutation (f_data s' ++ f_exts s' ++ freed) (f_data s ++ f_exts s) /\
+  (forall b, In b freed -> ~ In b (f_data s' ++ f_exts s')).
+Proof. exact trunc_inv. Qed.
+
 Print Assumptions C05_count.
 Print Assumptions C05_count_after_alloc.
 Print Assumptions C05_blocks_of_file.
+Print Assumptions C05_truncate_conserves.
